@@ -112,7 +112,7 @@ def build():
         return PyDict({"status": ERROR, "result": SExc(BUILTIN_EXC["ValueError"], ())})
 
     ro = Contract(
-        PAR, "BatchCompletionCallBack._register_outcome", props=["C01", "C04", "C16"],
+        PAR, "BatchCompletionCallBack._register_outcome", props=["C01", "C04", "C09", "C16"],  # C09: "once a task has failed no further items are taken" rests on error_raises_the_abort_flags (in every mode: dispatch_one_batch only looks at _aborting)
         params=dict(self=tracker(), outcome=outcome),
         requires=["lock_depth() == 0 or lock_depth() == 1"],
         modifies=["self.status", "self._result", "self.job", "self.parallel._exception", "self.parallel._aborting"],
